@@ -82,7 +82,7 @@ type c18Case struct {
 	srcs    map[string]string
 }
 
-var c18Faults = []string{"div0", "index", "undefined", "type", "throw", "key", "method-missing", "atoi", "arity", "nonbool-cond", "iterate-non-collection"}
+var c18Faults = []string{"div0", "index", "undefined", "type", "throw", "key", "method-missing", "atoi", "arity", "nonbool-cond", "iterate-non-collection", "member-stmt", "member-of-call-stmt", "member-in-expr"}
 
 func c18FaultStmt(kind string, tag int) zr.Stmt {
 	switch kind {
@@ -90,6 +90,12 @@ func c18FaultStmt(kind string, tag int) zr.Stmt {
 		return zr.If{Cond: intLit(1), Then: []zr.Stmt{zr.Show(zr.S("x"))}}
 	case "iterate-non-collection":
 		return zr.Iter{Names: []string{"项"}, Over: intLit(5), Body: []zr.Stmt{zr.Show(zr.S("x"))}}
+	case "member-stmt": // a statement that is nothing but a member access
+		return zr.ExprStmt{E: zr.Member{Recv: zr.ListLit{Items: []zr.Expr{intLit(1)}}, Prop: "不存在"}}
+	case "member-of-call-stmt": // … of a call result
+		return zr.ExprStmt{E: zr.Member{Recv: zr.CallE("层0", zr.ListLit{Items: []zr.Expr{intLit(1)}}), Prop: "不存在"}}
+	case "member-in-expr":
+		return zr.LetS(fmt.Sprintf("坏%d", tag), zr.Bin{Op: "+", L: intLit(1), R: zr.Member{Recv: zr.ListLit{Items: []zr.Expr{intLit(1)}}, Prop: "不存在"}})
 	}
 	return c09RaiseStmt(kind, fmt.Sprint(tag))
 }
@@ -431,6 +437,9 @@ func c18Fixed(c *Ctx) {
 		{name: "comment/empty-annotation-crlf", files: map[string]string{"main.zn": "注：\r\n令甲 = 1\r\n令乙 = 1 / 0\r\n"}, accept: [][]fr{{{M, 3}}}},
 		{name: "comment/empty-annotation-trailing", files: map[string]string{"main.zn": "令甲 = 1  注：\n令乙 = 2\n令丙 = 乙 / 0\n"}, accept: [][]fr{{{M, 3}}}},
 		{name: "comment/empty-annotation-undefined", files: map[string]string{"main.zn": "注：\n令甲 = 1\n输出 甲\n"}, accept: nil},
+		{name: "member-statement/this-property", files: map[string]string{"main.zn": "定义狗：\n\t其名 = “a”\n\t如何叫？\n\t\t令乙 = 1\n\t\t其不存在\n令D = （新建狗）\n以D（叫）\n"}, accept: [][]fr{{{M, 7}, {M, 5}}}},
+		{name: "member-statement/of-variable", files: map[string]string{"main.zn": "令甲 = 5\n令乙 = 6\n令丙 = 7\n甲之不存在\n"}, accept: [][]fr{{{M, 4}}}},
+		{name: "member-statement/call-site-inside", files: map[string]string{"main.zn": "如何取？\n\t输入数\n\t输出 10 / 数\n令甲 = 5\n令乙 = 6\n\n（取：0）之长度\n"}, accept: [][]fr{{{M, 7}, {M, 3}}}},
 		{name: "handler-fault/top-level", files: map[string]string{"main.zn": "令A = 1\n令B = A / 0\n令C = 2\n拦截异常：\n\t令D = 1\n\t令E = D / 0\n"}, accept: [][]fr{{{M, 6}}}},
 		{name: "handler-fault/after-returned-call", files: map[string]string{"main.zn": "如何丙？\n\t令Z = 1\n\t令W = Z / 0\n\n如何乙？\n\t令Y = 1 / 0\n\n如何甲？\n\t令X = 1\n\t（乙）\n\t令X2 = 1\n\t拦截异常：\n\t\t令Q = 1\n\t\t（丙）\n\n令A = 1\n（甲）\n"}, accept: [][]fr{{{M, 17}, {M, 14}, {M, 3}}}},
 		{name: "handler-fault/handler-name-is-no-identifier", files: map[string]string{"main.zn": "如何乙？\n\t令K = 1\n\t令Y = 1 / 0\n\n如何甲？\n\t令K = 1\n\t（乙）\n\n\t拦截1异常：\n\t\t输出5\n\n令A = 1\n（甲）\n"}, accept: [][]fr{{{M, 13}, {M, 7}}, {{M, 13}, {M, 9}}}},
